@@ -30,9 +30,9 @@ claim("C14",
       "Not decided: uniqueness across the IdKeeper.clean horizon (time arithmetic), restarts (the keeper is in memory).",
       "DESIGN.md §3 C14")
 claim("C05",
-      "release-for-cause table over every call site that drops retention (guarded-call dominance), must-pass exits of forward, who-may-write Pending, call-graph wiring of the retry loop, assign-before-persist ordering, zero-time contradiction rule, multi-instance-goroutine atomicity rule",
-      "Safety half of store-carry-forward for all histories and schedules: no path releases a bundle's retention without its tabled cause; every exit of forward deletes-for-cause, releases-after-success or marks pending; the retry loop is wired and complete; numbering precedes persisting; a zero creation time is never used as an expiry date; concurrent failure reports are serialised.",
-      "Not decided: liveness (eventual retransmission), crash/restart, epidemic's offer-to-every-new-peer as a history property.",
+      "release-for-cause table over every call site that drops retention (guarded-call dominance), must-pass exits of forward, who-may-write Pending, call-graph wiring of the retry loop, assign-before-persist ordering, zero-time contradiction rule, multi-instance-goroutine atomicity rule, persist-before-blocking ordering of every constraint change (mutator summaries to a fixpoint)",
+      "Safety half of store-carry-forward for all histories and schedules: no path releases a bundle's retention without its tabled cause; every exit of forward deletes-for-cause, releases-after-success or marks pending; the retry loop is wired and complete; numbering precedes persisting; a zero creation time is never used as an expiry date; concurrent failure reports are serialised; every change of the retention constraints is synced to the store before sender goroutines start, before waiting on them and before return (necessary for the retry mark to survive a stop while sends are in flight).",
+      "Not decided: liveness (eventual retransmission), crash/restart beyond the persist-before-blocking ordering, epidemic's offer-to-every-new-peer as a history property.",
       "DESIGN.md §3 C05")
 claim("C13",
       "membership-guard dominance (not-found outcome of a compare loop) + same-step recording + persisted-under-the-same-key value flow + sibling agreement of ReportFailure implementations + multi-instance-goroutine atomicity",
@@ -60,9 +60,9 @@ claim("C01",
       "Not decided: equality of values and payload bytes after a round trip; CBOR width boundaries inside cboring; the accepted-bytes clause beyond the CRC-type and fragment-group consistency.",
       "DESIGN.md §3 C01")
 claim("C02",
-      "must-validate by path enumeration of every bundle producer + call-graph completeness of the validation tree (all implementations of ExtensionBlock/EndpointType) + result-flow of every validator call + rule-guard presence (control dependence on conditions mentioning the rule's operands)",
-      "Every producer path that can succeed passes Bundle.CheckValid and returns its verdict; the validator reaches the validator of every block type / endpoint scheme in the program and drops no verdict; each structural rule of the statement has an error branch depending on its operands. Quantifies over all inputs because it is about all paths; a new block type without a reachable validator, a dropped verdict or a deleted rule is caught.",
-      "Not decided: the exact truth table of each predicate, regexp semantics, lifetime at the instant of use.",
+      "must-validate by path enumeration of every bundle producer + call-graph completeness of the validation tree (all implementations of ExtensionBlock/EndpointType) + result-flow of every validator call + rule-guard presence (control dependence on conditions mentioning the rule's operands) + constant-pattern anchoring of every endpoint regular expression",
+      "Every producer path that can succeed passes Bundle.CheckValid and returns its verdict; the validator reaches the validator of every block type / endpoint scheme in the program and drops no verdict; each structural rule of the statement has an error branch depending on its operands. Quantifies over all inputs because it is about all paths; a new block type without a reachable validator, a dropped verdict or a deleted rule is caught; every regular expression of the endpoint code is a constant anchored at both ends (whole-string match).",
+      "Not decided: the exact truth table of each predicate, regexp semantics beyond anchoring, lifetime at the instant of use.",
       "DESIGN.md §3 C02")
 claim("C09",
       "path enumeration of Bundle.Fragment with the payload length bound to 0 / positive and the must-not-fragment test bound; value-flow rules on fragmentPrimaryBlock and the payload slice bounds; control-dependence set of the block copy",
@@ -95,7 +95,7 @@ claim("C08",
       "Not decided: equivalence with a reference map over histories; state after a kill at an arbitrary instruction; badger/badgerhold internals; fsync of part files.",
       "DESIGN.md §3 C08")
 claim("C04",
-      "taint-to-allocation rule (wire-read sources to make() sinks with narrow-type / dominating-bound sanitisers) over every make() of the repository, frozen single-writer origin chain for the peer-declared segment size with bound checks at the origin, call-graph reachability of panic instructions from all decoder entry points (dead defaults discharged by path enumeration), loop-termination obligations for decoder loops",
-      "For all inputs: no allocation in the repository is sized by a wire value without a narrow type or a dominating bound (allocations that grow with arrived data are the accepted idioms); the negotiated segment size reaches the sender's buffer only through a checked chain and is bounded to [1, cap] at its origin; no explicit panic of the repository or cboring is reachable from any decoder entry point; every decoder loop is bounded by in-memory data or consumes input.",
+      "taint-to-allocation rule (wire-read sources to make() sinks with narrow-type / dominating-bound sanitisers) over every make() of the repository, frozen single-writer origin chain for the peer-declared segment size with bound checks at the origin, call-graph reachability of panic instructions from all decoder entry points (dead defaults discharged by path enumeration), loop-termination obligations for decoder loops, comma-ok discipline for type assertions in decoder-reachable code",
+      "For all inputs: no allocation in the repository is sized by a wire value without a narrow type or a dominating bound (allocations that grow with arrived data are the accepted idioms); the negotiated segment size reaches the sender's buffer only through a checked chain and is bounded to [1, cap] at its origin; no explicit panic of the repository or cboring is reachable from any decoder entry point; every decoder loop is bounded by in-memory data or consumes input; every single-value type assertion reachable from a decoder is a registry idiom or dominated by a comma-ok test of the same value.",
       "Not decided: panics inside third-party libraries (xz, gorilla, badger, reflect), nil dereference and index panics in general, slow-but-finite inputs, allocation behaviour inside cboring (one table entry).",
       "DESIGN.md §3 C04")
